@@ -1,6 +1,7 @@
 package main
 
 import (
+	"go/types"
 	"strings"
 
 	"golang.org/x/tools/go/ssa"
@@ -58,7 +59,9 @@ func runC19(p *Program, r *Result) {
 		r.Unk(sub, "paths", "", "more than 4096 acyclic paths")
 		return
 	}
-	isTypeEq, isTagEq := sshTypeEqAtom, sshTagEqAtom
+	alias := p.sshPrecomputedFields()
+	isTypeEq := func(a Atom) bool { return sshTypeEqAtomA(a, alias) }
+	isTagEq := func(a Atom) bool { return sshTagEqAtomA(a, alias) }
 	if len(prompts) == 0 {
 		r.Unk(sub, "call:passphrase", "", "no call of the passphrase field found in Unwrap")
 	}
@@ -161,11 +164,14 @@ func runC19(p *Program, r *Result) {
 		if pe == nil {
 			// the result of a helper spliced in: a merge whose every value that can get here is a
 			// constructor's result, found error-free on its own way into the merge
-			if ph, isPhi := stripConv(cached).(*ssa.Phi); isPhi && fe[ph.Block()] != nil {
+			if ph, isPhi := stripConv(cached).(*ssa.Phi); isPhi {
 				all, n := true, 0
 				for k, e := range ph.Edges {
-					if !fe[ph.Block()][k] {
+					if feas := fe[ph.Block()]; feas != nil && !feas[k] {
 						continue
+					}
+					if isNilConst(e) {
+						continue // nothing is remembered on this way
 					}
 					epe := pairedErr(e)
 					if epe == nil {
@@ -200,6 +206,21 @@ func runC19(p *Program, r *Result) {
 			if !strings.Contains(short(a2.Call.String()), "Field(Recv.pubKey)") {
 				ok2 = false
 			}
+		}
+		if !ok2 {
+			// the comparison made per key type and merged into one flag: every value merged is an
+			// Equal against the declared key
+			a2, ok2 = findFact(facts, func(a Atom) bool {
+				if a.Kind != "bool" || !a.Pol || a.X == nil || a.X.Op != "Phi" || len(a.X.Args) == 0 {
+					return false
+				}
+				for _, e := range a.X.Args {
+					if !(e.Op == "Call" || e.Op == "Invoke") || !strings.HasSuffix(e.S, ".Equal") || !strings.Contains(short(e.String()), "Field(Recv.pubKey)") {
+						return false
+					}
+				}
+				return true
+			})
 		}
 		switch {
 		case !ok1:
@@ -247,7 +268,9 @@ func checkEncryptedSSHStanzaLoop(p *Program, r *Result) {
 	}
 	tb := p.TB(fn)
 	sub := fn.String()
-	isTypeEq, isTagEq := sshTypeEqAtom, sshTagEqAtom
+	alias := p.sshPrecomputedFields()
+	isTypeEq := func(a Atom) bool { return sshTypeEqAtomA(a, alias) }
+	isTagEq := func(a Atom) bool { return sshTagEqAtomA(a, alias) }
 	loops := loopOver(fn, func(v ssa.Value) bool { return len(fn.Params) > 1 && v == fn.Params[1] })
 	if len(loops) != 1 {
 		r.Unk(sub, "loop:stanzas", "", "expected exactly one range loop over the stanzas parameter")
@@ -339,25 +362,117 @@ func checkEncryptedSSHStanzaLoop(p *Program, r *Result) {
 	}
 }
 
-func sshTypeEqAtom(a Atom) bool {
+func sshTypeEqAtom(a Atom) bool { return sshTypeEqAtomA(a, nil) }
+func sshTagEqAtom(a Atom) bool  { return sshTagEqAtomA(a, nil) }
+
+// sshPrecomputedFields: fields of EncryptedSSHIdentity that hold, for the life of the value, the
+// type or the fingerprint of its public key: every store to the field in the module is in a
+// function that also stores pk into the pubKey field of the same (freshly allocated) value, and
+// stores pk.Type() resp. sshFingerprint(pk). Maps "Field(Recv.f)" to what it stands for.
+func (p *Program) sshPrecomputedFields() map[string]string {
+	out := map[string]string{}
+	st, ok := p.structType(encSSHType)
+	if !ok {
+		return out
+	}
+	for i := 0; i < st.NumFields(); i++ {
+		f := st.Field(i).Name()
+		if f == "pubKey" {
+			continue
+		}
+		stores := p.fieldStores(encSSHType, f)
+		if len(stores) == 0 {
+			continue
+		}
+		def := ""
+		for _, fs := range stores {
+			al, isAl := fs.FA.X.(*ssa.Alloc)
+			if !isAl {
+				def = ""
+				break
+			}
+			// the value stored into pubKey of the same allocation in the same function
+			var pk ssa.Value
+			for _, ps := range p.fieldStores(encSSHType, "pubKey") {
+				if ps.Fn == fs.Fn && ps.FA.X == ssa.Value(al) {
+					pk = ps.Store.Val
+				}
+			}
+			if pk == nil {
+				def = ""
+				break
+			}
+			d := ""
+			if c, isCall := fs.Store.Val.(*ssa.Call); isCall {
+				switch {
+				case calleeName(&c.Call) == "invoke (golang.org/x/crypto/ssh.PublicKey).Type" && c.Call.Value == pk:
+					d = "invoke (ssh.PublicKey).Type(Field(Recv.pubKey))"
+				case strings.HasSuffix(calleeName(&c.Call), "agessh.sshFingerprint") && len(c.Call.Args) == 1 && c.Call.Args[0] == pk:
+					d = "agessh.sshFingerprint(Field(Recv.pubKey))"
+				}
+			}
+			if d == "" || (def != "" && def != d) {
+				def = ""
+				break
+			}
+			def = d
+		}
+		if def != "" {
+			out["Field(Recv."+f+")"] = def
+		}
+	}
+	return out
+}
+
+func sshTypeEqAtomA(a Atom, alias map[string]string) bool {
 	if a.Kind != "cmp" || a.Op != "==" {
 		return false
 	}
 	x, y := short(a.X.String()), short(a.Y.String())
+	if d, ok := alias[x]; ok {
+		x = d
+	}
+	if d, ok := alias[y]; ok {
+		y = d
+	}
 	m := func(s, t string) bool {
 		return strings.HasPrefix(s, "Field(Elem(P1,") && strings.HasSuffix(s, ".Type)") &&
 			t == "invoke (ssh.PublicKey).Type(Field(Recv.pubKey))"
 	}
 	return m(x, y) || m(y, x)
 }
-func sshTagEqAtom(a Atom) bool {
+func sshTagEqAtomA(a Atom, alias map[string]string) bool {
 	if a.Kind != "cmp" || a.Op != "==" {
 		return false
 	}
 	x, y := short(a.X.String()), short(a.Y.String())
+	if d, ok := alias[x]; ok {
+		x = d
+	}
+	if d, ok := alias[y]; ok {
+		y = d
+	}
 	m := func(s, t string) bool {
 		return strings.HasPrefix(s, "Elem(Field(Elem(P1,") && strings.HasSuffix(s, ".Args), 0)") &&
 			t == "agessh.sshFingerprint(Field(Recv.pubKey))"
 	}
 	return m(x, y) || m(y, x)
+}
+
+// structType finds a named struct type of the module by its full name (pkg path + "." + name).
+func (p *Program) structType(full string) (*types.Struct, bool) {
+	i := strings.LastIndex(full, ".")
+	if i < 0 {
+		return nil, false
+	}
+	sp := p.SSAPkg[full[:i]]
+	if sp == nil {
+		return nil, false
+	}
+	obj := sp.Pkg.Scope().Lookup(full[i+1:])
+	if obj == nil {
+		return nil, false
+	}
+	st, ok := obj.Type().Underlying().(*types.Struct)
+	return st, ok
 }
